@@ -1,0 +1,43 @@
+//go:build verif
+
+package ast
+
+import "sync"
+
+// VerifPools returns every sync.Pool of this package under the name of its variable, so that the
+// verification harness can observe what the release paths have put into pools that have no exported
+// Get function.  Compiled only with the verif build tag; nothing else refers to it.
+func VerifPools() map[string]*sync.Pool {
+	return map[string]*sync.Pool{
+		"astPool":                &astPool,
+		"selectStmtPool":         &selectStmtPool,
+		"insertStmtPool":         &insertStmtPool,
+		"updateStmtPool":         &updateStmtPool,
+		"deleteStmtPool":         &deleteStmtPool,
+		"identifierPool":         &identifierPool,
+		"binaryExprPool":         &binaryExprPool,
+		"literalValuePool":       &literalValuePool,
+		"updateExprPool":         &updateExprPool,
+		"functionCallPool":       &functionCallPool,
+		"caseExprPool":           &caseExprPool,
+		"betweenExprPool":        &betweenExprPool,
+		"inExprPool":             &inExprPool,
+		"tupleExprPool":          &tupleExprPool,
+		"arrayConstructorPool":   &arrayConstructorPool,
+		"subqueryExprPool":       &subqueryExprPool,
+		"castExprPool":           &castExprPool,
+		"intervalExprPool":       &intervalExprPool,
+		"arraySubscriptExprPool": &arraySubscriptExprPool,
+		"arraySliceExprPool":     &arraySliceExprPool,
+		"existsExprPool":         &existsExprPool,
+		"anyExprPool":            &anyExprPool,
+		"allExprPool":            &allExprPool,
+		"listExprPool":           &listExprPool,
+		"unaryExprPool":          &unaryExprPool,
+		"extractExprPool":        &extractExprPool,
+		"positionExprPool":       &positionExprPool,
+		"substringExprPool":      &substringExprPool,
+		"aliasedExprPool":        &aliasedExprPool,
+		"exprSlicePool":          &exprSlicePool,
+	}
+}
